@@ -34,7 +34,7 @@ def def_key(d, N, variants, rh):
     return hashlib.sha256(text.encode()).hexdigest()[:20]
 
 
-ST_VERSION = 14      # bump to invalidate cached per-definition results when the harness changes
+ST_VERSION = 16      # bump to invalidate cached per-definition results when the harness changes
 
 
 def work_def(args):
@@ -209,6 +209,10 @@ def replay_variant(prop, crate, i, d, mm, widths_fn):
             break
         words += list(itertools.product(reps, repeat=k))
     script = [0, 1, 2, 0, 1, 2, 0, 1]
+    if mm.get('concrete') and mm['concrete'].get('input') is not None:
+        # the solver's own witness (e.g. a specific first character) is tried first
+        w0 = tuple(mm['concrete']['input'])
+        words = [w0] + [w0 + (r,) for r in reps[:6]] + words
     base = [C.drv_line(i, 0, False, 0, len(w) + 2, 0, 255, script if prop == 'C15' else [], list(w)) for w in words]
     base_out = crate.native_run(base)
     variants = [(c, 255) for c in (1, 2, 3)] if prop == 'C14' else [(0, k) for k in (0, 1, 2)]
@@ -244,7 +248,7 @@ def run_lex(rep, prop, extra_coverage=None, budget_override=None):
     """run the step harness over the family of `prop` and record verdicts in rep"""
     rng = random.Random(seed() * 7919 + int(prop[1:]))
     thorough = tier() == 'thorough'
-    budget = budget_override or (600 if thorough else 100)
+    budget = budget_override or (600 if thorough else (180 if prop == 'C15' else 100))
     ST.MAX_DYN[0] = 3 if thorough else 2
     try:
         defs, N, variants = select.select(prop, thorough, rng)
@@ -254,7 +258,9 @@ def run_lex(rep, prop, extra_coverage=None, budget_override=None):
         cached = {}
         for i, k in enumerate(keys):
             p = os.path.join(cache_dir, k + '.json')
-            if os.path.exists(p) and not os.environ.get('VERIF_NOCACHE'):
+            # the per-definition result cache is a development aid only (VERIF_CACHE=1): a registered check always
+            # recomputes everything, so that its evidence describes the work of this very run
+            if os.path.exists(p) and os.environ.get('VERIF_CACHE') == '1':
                 try:
                     cached[i] = json.load(open(p))
                 except Exception:
@@ -313,7 +319,7 @@ def run_lex(rep, prop, extra_coverage=None, budget_override=None):
             with mp.Pool(min(16, max(1, len(todo)))) as pool:
                 for r in pool.imap_unordered(work_def, [(i, N, variants, budget) for i in todo]):
                     results[r['idx']] = r
-                    if r['inconclusive'] is None and not r.get('over_budget'):
+                    if r['inconclusive'] is None and not r.get('over_budget') and os.environ.get('VERIF_CACHE') == '1':
                         with open(os.path.join(cache_dir, keys[r['idx']] + '.json'), 'w') as f:
                             json.dump(r, f)
                     if os.environ.get('VERIF_VERBOSE'):
@@ -358,6 +364,9 @@ def run_lex(rep, prop, extra_coverage=None, budget_override=None):
                     props.add('C13')
                 if 'class' in d.tags and ({'match', 'lang'} & set(mm['aspects'])):
                     props.add('C11')
+                if 'C02' in d.tags and ({'match', 'lang'} & set(mm['aspects'])):
+                    # definitions of the regex-language family: a wrong lexeme (also a wrong lexeme length) is a language error
+                    props.add('C02')
                 if prop not in props:
                     for p in props:
                         other[p] = other.get(p, 0) + 1
